@@ -154,8 +154,9 @@ def wire(e) -> list[str]:
             out += [str(vid)] + wire(be)
         return out + wire(e[2])
     if t == 'f':
-        out = [f'f{len(e[2])}:{e[1]}']
-        for a in e[2]:
+        args = [a for a in e[2] if not is_collarg(a)]
+        out = [f'f{len(args)}:{e[1]}']
+        for a in args:
             out += wire(a)
         return out
     if t == 'cmp':
@@ -193,8 +194,25 @@ def dbl_text(v) -> str:
     return f'(-{body})' if sign else body
 
 
+CP_URI = 'http://www.w3.org/2005/xpath-functions/collation/codepoint'
+CI_URI = 'http://www.w3.org/2005/xpath-functions/collation/html-ascii-case-insensitive'
+
+
+def COLL(kind):
+    """a collation argument: 'ci' / 'cp' = the URI literal, 'default' = default-collation().  The Lean
+    side has no collation argument: the call is evaluated with the collation the argument denotes as
+    the context's collation (see Case.effective_collation)"""
+    return ('lit', ('c', kind))
+
+
+def is_collarg(e) -> bool:
+    return e[0] == 'lit' and e[1][0] == 'c'
+
+
 def atom_text(a) -> str:
     t, v = a
+    if t == 'c':
+        return {'ci': f"'{CI_URI}'", 'cp': f"'{CP_URI}'", 'default': 'default-collation()'}[v]
     if t == 'i':
         return str(v) if v >= 0 else f'(-{-v})'
     if t == 'b':
@@ -409,7 +427,13 @@ def parsers_for(e) -> list[str]:
 _PARSERS = {}
 
 
-def parser_class(v: str):
+def parser_class(v: str, coll: str = 'cp'):
+    if coll == 'ci':
+        import functools
+        key = v + '/ci'
+        if key not in _PARSERS:
+            _PARSERS[key] = functools.partial(parser_class(v), default_collation=CI_URI)
+        return _PARSERS[key]
     if not _PARSERS:
         from elementpath import XPath2Parser
         from elementpath.xpath30 import XPath30Parser
@@ -486,6 +510,8 @@ def canon_item(x) -> str:
             fr *= 10
             k += 1
         return f'q:{fr.numerator}/{k}'               # exact value, trailing zeros dropped
+    if type(x).__name__ == 'AnyURI':
+        return 'uri:' + '.'.join(format(ord(c), 'x') for c in x.value)
     if type(x).__name__ == 'UntypedAtomic':
         return 'u:' + '.'.join(format(ord(c), 'x') for c in x.value)
     idx = document()['index'].get(id(x))
@@ -525,10 +551,10 @@ def guarded(thunk) -> str:
         return f'ERR:OTHER:{type(e).__name__}'
 
 
-def run_impl(expr_text: str, ctx, pv: str) -> str:
+def run_impl(expr_text: str, ctx, pv: str, coll: str = 'cp') -> str:
     """the primary route: the `elementpath.select` API, a fresh parser and token tree per call"""
     import elementpath
-    return guarded(lambda: elementpath.select(document()['root'], expr_text, parser=parser_class(pv),
+    return guarded(lambda: elementpath.select(document()['root'], expr_text, parser=parser_class(pv, coll),
                                               **ctx_kwargs(ctx)))
 
 
@@ -546,12 +572,12 @@ def other_context(ctx):
     return (item2, pos + 1, size + 2, vars2)
 
 
-def run_route(expr_text: str, ctx, pv: str, route: str) -> str:
+def run_route(expr_text: str, ctx, pv: str, route: str, coll: str = 'cp') -> str:
     """the same expression through another public evaluation route of the engine"""
     import elementpath
     from elementpath import XPathContext, Selector
     root = document()['root']
-    cls = parser_class(pv)
+    cls = parser_class(pv, coll)
     if route == 'evaluate':
         return guarded(lambda: cls().parse(expr_text).evaluate(XPathContext(root, **ctx_kwargs(ctx))))
     if route == 'token-select':
@@ -568,7 +594,7 @@ def run_route(expr_text: str, ctx, pv: str, route: str) -> str:
     if route == 'reuse':
         # ONE Selector (one token tree) per expression text, kept for the whole run and evaluated with
         # alternating dynamic contexts; the answers for the same context must not change
-        key = (expr_text, pv)
+        key = (expr_text, pv, coll)
         try:
             sel = _SELECTORS.get(key)
             if sel is None:
@@ -599,10 +625,10 @@ def routes_for(e, pvs: list[str]) -> list[tuple[str, str]]:
     return out
 
 
-def run_any(e, ctx, pv: str, route: str) -> str:
+def run_any(e, ctx, pv: str, route: str, coll: str = 'cp') -> str:
     if route.startswith('call:'):
-        return run_impl(text(e, route[5:]), ctx, pv)
-    return run_route(text(e), ctx, pv, route)
+        return run_impl(text(e, route[5:]), ctx, pv, coll)
+    return run_route(text(e), ctx, pv, route, coll)
 
 
 def ctx_fields(ctx) -> str:
@@ -619,17 +645,28 @@ DEFAULT_CTX = (('i', 7), 2, 3, {0: [('i', 3), ('i', 1), ('i', 2)], 1: [('i', 5)]
 # cases
 # --------------------------------------------------------------------------------------
 class Case:
-    __slots__ = ('expr', 'ctx', 'kind', 'strict', 'note', 'pair')
+    __slots__ = ('expr', 'ctx', 'kind', 'strict', 'note', 'pair', 'coll')
 
-    def __init__(self, expr, ctx=DEFAULT_CTX, kind='probe', strict=True, note='', pair=None):
+    def __init__(self, expr, ctx=DEFAULT_CTX, kind='probe', strict=True, note='', pair=None, coll='cp'):
         self.expr, self.ctx, self.kind, self.strict, self.note, self.pair = expr, ctx, kind, strict, note, pair
+        self.coll = coll          # the parser's default collation: 'cp' (code points) or 'ci' (html-ascii-case-insensitive)
+
+    def effective_collation(self) -> str:
+        """the collation the (single) collation-taking call of the expression works with: the one its
+        collation argument names, else the default collation of the parser"""
+        kinds = {x[1][1] for x in subexprs(self.expr) if is_collarg(x)}
+        assert len(kinds) <= 1, kinds
+        k = next(iter(kinds), 'default')
+        return self.coll if k == 'default' else k
 
     def line(self) -> str:
-        return ctx_fields(self.ctx) + ' expr=' + '~'.join(wire(self.expr))
+        eff = self.effective_collation()
+        return ctx_fields(self.ctx) + (' coll=ci' if eff == 'ci' else '') + ' expr=' + '~'.join(wire(self.expr))
 
     def describe(self) -> dict:
         item, pos, size, variables = self.ctx
         return {'xpath': text(self.expr), 'kind': self.kind, 'note': self.note,
+                'default_collation': CI_URI if self.coll == 'ci' else CP_URI,
                 'context': {'item': atom_text(item) if item[0] != 'n' else f'node#{item[1]}', 'position': pos, 'size': size,
                             'variables': {f'v{k}': [atom_text(a) if a[0] != 'n' else f'node#{a[1]}' for a in v]
                                           for k, v in variables.items()},
@@ -752,7 +789,13 @@ def corpus_cases():
         (seq([F('boolean', ('filter', ('var', 2), B(True))), ('dot',), ('pos',), ('last',)]), 'F08s'),
         (('for', [(0, ('var', 0))], ('var', 0)), 'F08b'),
     ]
-    return [Case(e, kind='corpus', note=n) for e, n in exprs]
+    ab = seq([S('a'), S('A'), S('b')])
+    coll = [Case(F('distinct-values', ab), kind='corpus', note='F08z', coll='ci'),
+            Case(F('distinct-values', ab, COLL('ci')), kind='corpus', note='F08z'),
+            Case(F('max', seq([S('a'), S('B')])), kind='corpus', note='F08aa', coll='ci'),
+            Case(F('min', seq([S('b'), S('B'), S('a')]), COLL('ci')), kind='corpus', note='F08aa'),
+            Case(F('index-of', ab, S('a')), kind='corpus', note='seeded: default collation in index-of/2', coll='ci')]
+    return [Case(e, kind='corpus', note=n) for e, n in exprs] + coll
 
 
 def probe_cases(thorough: bool, rng=None):
@@ -900,6 +943,65 @@ def probe_cases(thorough: bool, rng=None):
     add(('var', 0)); add(('var', 1)); add(('dot',)); add(('pos',)); add(('last',))
     add(('filter', ('var', 0), ('cmp', 'gt', ('dot',), ('var', 1))))
     return cases
+
+
+# ---- collations ------------------------------------------------------------------------
+COLL_STRINGS = ['a', 'A', 'b', 'B', 'ab', 'AB', 'Ab', 'aB', 'abc', 'z', 'Z', '[', '_', '^', '`', '{', '@', '', ' a',
+                'a ', '\u00e9', '\u00c9', '\u0131', 'I', 'i', 'K', '\u212a', '1', 'ss', '\u00df', 'aa', 'Aa']
+
+
+def coll_sequences(rng, n: int):
+    """sequences of xs:string / xs:untypedAtomic items (a few numbers and booleans mixed in) that contain items equal
+    under html-ascii-case-insensitive but not code-point equal"""
+    fixed = [[S('a'), S('A'), S('b')], [S('B'), S('a'), S('b'), S('A')], [S('Z'), S('['), S('a'), S('_'), S('z')],
+             [U('a'), S('A'), U('A'), S('a')], [S('\u00e9'), S('\u00c9'), S('E'), S('e')], [S('K'), S('\u212a'), S('k')],
+             [S('ab'), S('AB'), S('Ab'), S('aB'), S('abc')], [S('a'), I(1), S('A'), B(True), S('1')], [], [S('A')],
+             [S('b'), S('B')], [S('B'), S('b')], [U('b'), U('B')], [S(''), S('a'), S('')], [S('I'), S('\u0131'), S('i')]]
+    out = list(fixed)
+    for _ in range(n):
+        k = rng.randint(0, 6)
+        items = []
+        for _ in range(k):
+            w = rng.choice(COLL_STRINGS)
+            r = rng.random()
+            items.append(U(w) if r < 0.2 else I(rng.randint(0, 2)) if r < 0.25 else S(w))
+        out.append(items)
+    return out
+
+
+def collation_cases(rng, thorough: bool):
+    """index-of, distinct-values, min, max with a parser whose DEFAULT collation is html-ascii-case-insensitive (the
+    forms without a collation argument must use it), with `default-collation()` and with the URI as explicit
+    collation argument under either default; every case is judged against model and spec evaluated with the
+    collation the call has to use, and the spellings are compared with each other"""
+    out = []
+
+    def variants(name, mk):
+        """mk(extra_args) -> expression"""
+        two = Case(mk([]), kind='collation', note=name, coll='ci')                        # default collation
+        dflt = Case(mk([COLL('default')]), kind='equiv:collation-default', note=name, coll='ci')
+        two_pair = Case(mk([]), kind='equiv:collation-default', note=name, coll='ci')
+        two_pair.pair = dflt                          # f(S, x) = f(S, x, default-collation())
+        expl = Case(mk([COLL('ci')]), kind='collation', note=name, coll='cp')            # named, default = code points
+        expl2 = Case(mk([COLL('ci')]), kind='collation', note=name, coll='ci')
+        back = Case(mk([COLL('cp')]), kind='collation', note=name, coll='ci')            # named code points, default ci
+        dflt_cp = Case(mk([COLL('default')]), kind='collation', note=name, coll='cp')
+        out.extend([two, two_pair, dflt, expl, expl2, back, dflt_cp])
+
+    seqs = coll_sequences(rng, 12 if not thorough else 150)
+    for items in seqs:
+        s = seq(items)
+        for wrap in (lambda x: x, lambda x: F('reverse', x)):
+            sx = wrap(s)
+            variants('distinct-values', lambda extra, sx=sx: F('distinct-values', sx, *extra))
+            variants('max', lambda extra, sx=sx: F('max', sx, *extra))
+            variants('min', lambda extra, sx=sx: F('min', sx, *extra))
+            searches = [S('a'), S('A'), U('b'), S('\u00c9'), S('k'), I(1), S('AB'), S('')]
+            for v in (searches if thorough else rng.sample(searches, 3)):
+                variants('index-of', lambda extra, sx=sx, v=v: F('index-of', sx, v, *extra))
+            if not thorough:
+                break
+    return out
 
 
 # ---- equivalences ---------------------------------------------------------------------
@@ -1525,6 +1627,70 @@ def kernel_probe(run: Run):
 
 
 # a few node-sequence probes: the structural functions are polymorphic, nodes are compared by index
+def collation_probe(run: Run):
+    """engine-only metamorphic check, also for the functions / item types outside the Lean fragment (fn:deep-equal,
+    xs:anyURI items): with DEFAULT collation html-ascii-case-insensitive the form without collation argument, the
+    form with `default-collation()` and the form with the URI (under either default collation) give the same result;
+    and the kernel's collation key is the engine's (`CollationManager.strcoll`)"""
+    rng = random.Random(run.seed * 7919 + 17)
+    words = COLL_STRINGS
+
+    def lit(w):
+        q = "'" + w.replace("'", "''") + "'"
+        r = rng.random()
+        return q if r < 0.6 else f'xs:untypedAtomic({q})' if r < 0.8 else f'xs:anyURI({q})'
+
+    def swap(w):
+        return ''.join(ch.swapcase() if ch.isascii() and rng.random() < 0.6 else ch for ch in w)
+
+    n = 0
+    for _ in range(run.scale(60, 1200)):
+        ws = [rng.choice(words) for _ in range(rng.randint(0, 4))]
+        s1 = '(' + ', '.join(lit(w) for w in ws) + ')'
+        ws2 = [swap(w) for w in ws]
+        if ws2 and rng.random() < 0.2:
+            ws2[rng.randrange(len(ws2))] = rng.choice(words)
+        s2 = '(' + ', '.join(lit(w) for w in ws2) + ')'
+        x = lit(swap(rng.choice(ws)) if ws and rng.random() < 0.7 else rng.choice(words))
+        forms = [('index-of', f'index-of({s1}, {x}'), ('distinct-values', f'distinct-values(({s1}, {s2})'),
+                 ('deep-equal', f'deep-equal({s1}, {s2}'), ('max', f'max({s1}'), ('min', f'min(({s1}, {s2})'),
+                 ('deep-equal', f'deep-equal(reverse({s1}), reverse({s2})')]
+        for name, head in forms:
+            t2, td, tu = head + ')', head + ', default-collation())', head + f", '{CI_URI}')"
+            for pv in ('31', '30', '20'):
+                res = {'no-argument, default=ci': run_impl(t2, DEFAULT_CTX, pv, 'ci'),
+                       'default-collation(), default=ci': run_impl(td, DEFAULT_CTX, pv, 'ci'),
+                       'URI, default=ci': run_impl(tu, DEFAULT_CTX, pv, 'ci'),
+                       'URI, default=codepoint': run_impl(tu, DEFAULT_CTX, pv, 'cp')}
+                n += 1
+                run.stats.case({'collation': t2, 'pv': pv}, nontrivial=True)
+                run.stats.count('collation-metamorphic:' + name)
+                ref = res['URI, default=codepoint']
+                for k, v in res.items():
+                    if v != ref:
+                        run.disagree(Disagreement({'collation-metamorphic': name, 'xpath': t2, 'variant': k,
+                                                   'reference': tu + '  (default collation: code points)',
+                                                   'default_collation': CI_URI, 'parser': pv},
+                                                  impl=v, spec=ref, what='collation', site=f'fn:{name}'))
+    # kernel: the collation key of the Lean side vs the engine's CollationManager
+    from elementpath.collations import CollationManager
+    pairs = [(a, b) for a in words for b in words if rng.random() < (0.25 if run.quick else 1.0)]
+    for _ in range(run.scale(200, 2000)):
+        mk = lambda: ''.join(rng.choice('aAbBzZ[_^`{@ \u00e9\u00c9\u0131IiK\u212a1') for _ in range(rng.randint(0, 4)))
+        pairs.append((mk(), mk()))
+    hx = lambda t: '.'.join(format(ord(ch), 'x') for ch in t) or '-'
+    ans = run.driver('C08', [f'ckey={hx(a)},{hx(b)}' for a, b in pairs])
+    with CollationManager(CI_URI) as cm:
+        for (a, b), got in zip(pairs, ans):
+            r = cm.strcoll(a, b)
+            exp = f'ceq={1 if r == 0 else 0} clt={1 if r < 0 else 0}'
+            run.stats.case({'ckey': [a, b]}, nontrivial=False)
+            run.stats.count('kernel:collation-key')
+            if got != exp:
+                run.disagree(Disagreement({'kernel': 'collKey', 'strings': [a, b]}, impl=exp, model=got, what='kernel-collation',
+                                          site='EPV.Seq.collEq/collLt vs CollationManager.strcoll'))
+
+
 def node_probe(run: Run):
     import elementpath
     from xml.etree import ElementTree as ET
@@ -1591,12 +1757,12 @@ def impl_results(c: Case) -> dict:
     primary = pvs
     if QUICK_PRIMARY and not ALL_ROUTES and len(pvs) > 2:
         primary = [pvs[0], pvs[1 + (h >> 8) % (len(pvs) - 1)]]
-    impl = {pv: run_impl(t, c.ctx, pv) for pv in primary}
+    impl = {pv: run_impl(t, c.ctx, pv, c.coll) for pv in primary}
     routes = routes_for(c.expr, pvs)
     if not ALL_ROUTES:
         routes = [routes[h % len(routes)]]
     for pv, route in routes:
-        impl[f'{pv}/{route}'] = run_any(c.expr, c.ctx, pv, route)
+        impl[f'{pv}/{route}'] = run_any(c.expr, c.ctx, pv, route, c.coll)
     return impl
 
 
@@ -1624,7 +1790,8 @@ def judge(run: Run, rec: dict, stats=True) -> list[Disagreement]:
         return [Disagreement(c.describe(), impl='driver:' + rec['answer'], what='protocol')]
     model, spec = rec['model'], rec['spec']
     if stats:
-        st.case(c.describe()['xpath'] + '|' + ctx_fields(c.ctx), nontrivial=depth(c.expr) > 1)
+        st.case(c.describe()['xpath'] + '|' + ctx_fields(c.ctx) + ('|default-collation=ci' if c.coll == 'ci' else ''),
+                nontrivial=depth(c.expr) > 1)
         st.count('kind:' + c.kind.split(':')[0])
         for ft in features(c.expr):
             st.count(ft)
@@ -1788,7 +1955,7 @@ def make_shrink(run: Run):
                 key = repr(e2)
                 if key not in seen and len(cands) < 400:
                     seen.add(key)
-                    cands.append(Case(e2, cur.ctx, kind=cur.kind, strict=cur.strict))
+                    cands.append(Case(e2, cur.ctx, kind=cur.kind, strict=cur.strict, coll=cur.coll))
             if not cands:
                 break
             sub = Run(PROP, run.tier, run.seed)
@@ -1869,14 +2036,19 @@ def search(run: Run):
 # --------------------------------------------------------------------------------------
 def body(run: Run) -> int:
     run.trusted_base += ['harness/c08.py: AST printers (XPath text / Polish notation), canonicalisers',
-                         'EPV/Model/SeqFunsNum.lean `rnd` / `roundSig28` / `lexDouble` (shared by model and specification) as '
-                         'IEEE 754 round-to-nearest-even, 28-digit decimal division and the xs:double lexical mapping: '
+                         'EPV/Model/SeqFunsNum.lean `rnd` / `roundSig28` / `lexDouble` / `collKey` (shared by model and specification) as '
+                         'IEEE 754 round-to-nearest-even, 28-digit decimal division, the xs:double lexical mapping and the '
+                         'html-ascii-case-insensitive collation key: '
                          'compared with CPython float / Decimal on every run (kernel probe), not proved']
     run.assumptions += [
         'items are xs:integer (unbounded), xs:decimal (exact), xs:double (exact binary value, NaN, +-INF, -0), '
         'xs:string, xs:boolean, xs:untypedAtomic and element nodes (identified by document order, string value '
-        'from the document); xs:float, dates, durations, QNames, maps, arrays and non-codepoint collations are '
-        'outside the model',
+        'from the document); xs:float, dates, durations, QNames, xs:anyURI, maps, arrays are outside the model',
+        'collations: the code-point collation and html-ascii-case-insensitive, as default collation of the parser '
+        'and as collation argument of index-of / distinct-values / min / max (locale and UCA collations are '
+        'outside; fn:deep-equal and xs:anyURI items are covered by the engine-only metamorphic check '
+        'f(S, x) = f(S, x, default-collation()) = f(S, x, URI)); value comparisons (eq, lt) are generated '
+        'under the code-point default only',
         'xs:decimal arithmetic stays within the 28 significant digits of the decimal context (the generator '
         'bounds the operands); `xs:double op integer beyond the double range` (FOAR0002 in the engine) is not generated',
         'double eq double is exact equality (elementpath applies a 1e-7 relative tolerance: C07; the generated '
@@ -1895,6 +2067,7 @@ def body(run: Run) -> int:
     try:
         cases = probe_cases(not run.quick, rng)
         cases += equivalence_cases(rng, not run.quick)
+        cases += collation_cases(rng, not run.quick)
         cases = [c for c in cases if c is not None]
         cases += random_cases(rng, run.scale(6000, 70000), 6 if run.quick else 7)
         run.stats.rule = ('an evaluation = one expression in one dynamic context (item, position, size, variables) '
@@ -1908,6 +2081,7 @@ def body(run: Run) -> int:
             run.disagree(d)
         node_probe(run)
         kernel_probe(run)
+        collation_probe(run)
     except DriverError as e:
         run.broken.append('driver:C08 ' + str(e)[:400])
     return run.finish('proof', shrink=make_shrink(run), search=search)
